@@ -16,7 +16,8 @@ RULE = ("files = interleavings of directive/comment/blank/feature lines: all seq
         "inferred and supplied dialect; non-trivial = a directive sits after feature number checklines+1 (beyond the "
         "inspection window) or a FASTA section is present; distinct by (file text, checklines, input form)")
 REQUIRED = ["pairs of iterators with overlapping lifetimes", "DataIterator.directives compared", "db.directives compared", "reopened directives compared",
-            "directives beyond the window observed", "files with FASTA section", "directives compared after update + delete + reopen", "files with bare CR line ends"]
+            "directives beyond the window observed", "files with FASTA section", "directives compared after update + delete + reopen", "files with bare CR line ends",
+            "db.directives compared after the caller's own iterator started another pass"]
 ASSUMPTIONS = [
     "the FASTA section starts at a line that is exactly '##FASTA' or begins with '>'",
     "blank lines are truly empty (whitespace-only lines are not generated)",
@@ -69,7 +70,9 @@ def build(kinds, fasta=None):
     if fasta == "fasta":
         lines += ["##FASTA", ">chr1 desc", "ACGTNNNN", "##inside-fasta", "chrF\tsrc\tgene\t1\t2\t.\t+\t.\tID=fake"]
     elif fasta == "bare":
-        lines += [">chr1", "ACGT", "##after-header", "chrF\tsrc\tgene\t1\t2\t.\t+\t.\tID=fake2", "#c"]
+        # a header line is a header line whatever follows the '>' (also tab-separated text that looks like nine columns)
+        header = [">chr1", ">chr1 desc", ">chr1\tsrc\tgene\t1\t2\t.\t+\t.\tID=header", ">\t\t\t\t\t\t\t\t\t"][len(lines) % 4]
+        lines += [header, "ACGT", "##after-header", "chrF\tsrc\tgene\t1\t2\t.\t+\t.\tID=fake2", "#c"]
     return lines
 
 
@@ -129,12 +132,28 @@ def execute(ctx, case):
         if exp_n == 0:
             return
         # observation point 2: the database
+        kept = None
         try:
-            db = gffutils.create_db(data, dbfn, from_string=fs, **kw)
+            if case["input"] != "string" and (len(text) + ck) % 4 == 1:
+                # the data is a DataIterator the caller keeps; after the import the caller starts another pass over it and
+                # abandons it - the database's directives are the database's own
+                kept = DataIterator(data, **kw)
+                db = gffutils.create_db(kept, dbfn, **kw)
+            else:
+                db = gffutils.create_db(data, dbfn, from_string=fs, **kw)
         except Exception as ex:
             ctx.violation(case, {"why": "create_db raised %r" % (ex,), "text": text})
             return
         try:
+            if kept is not None:
+                first_look = list(db.directives)
+                for _f in kept:
+                    break
+                ctx.mon("db.directives compared after the caller's own iterator started another pass")
+                if list(db.directives) != first_look:
+                    ctx.violation(case, {"why": "db.directives changed when the caller iterated the DataIterator it had handed to create_db again",
+                                         "before": first_look, "after": list(db.directives), "text": text})
+                    return
             ctx.mon("db.directives compared")
             beyond = directives_beyond_window(lines, ck)
             if beyond:
